@@ -16,6 +16,53 @@ def written_values(p):
     return out
 
 
+def _subst(v, old, new):
+    if v == old:
+        return new
+    if isinstance(v, tuple):
+        return tuple(_subst(x, old, new) for x in v)
+    return v
+
+
+def opened_displays(F, p, depth=0):
+    """values written by Display/Debug impls that do not exist on the reference tree (a piece of a message moved into a `Display` impl
+    of its own) for the values this path hands to the formatting machinery: their own writes, with `self` replaced by the value shown"""
+    out = []
+    if depth > 2:
+        return out
+    for e in p.effects:
+        if e.kind != 'call' or not re.search(r'rt::Argument::new_(display|debug)$', e.data[1]) or not e.data[2]:
+            continue
+        tys = [x_ for x_ in (((e.term or {}).get('callee') or {}).get('args') or []) if not x_.startswith("'")]
+        if not tys:
+            continue
+        tr = 'core::fmt::Display' if e.data[1].endswith('display') else 'core::fmt::Debug'
+        ty = tys[0].lstrip('&').strip()
+        from facts import strip_generics
+        f = F.method(strip_generics(ty), 'fmt', tr, optional=True)
+        if f is None or not symex.is_new_helper(f):
+            continue
+        shown = strip(e.data[2][0])
+        for q in symex.Interp(F).run(f):
+            for v in written_values(q) + opened_displays(F, q, depth + 1):
+                out.append(_subst(v, ('param', 0, 1), shown))
+    return out
+
+
+def field_names(vals):
+    """names of the fields read by the given values"""
+    names = set()
+    for v in vals:
+        for x in symex.subvalues(v):
+            if x[0] == 'field':
+                names.add(x[2])
+            elif x[0] == 'ref':
+                for el in x[1][1]:
+                    if el[0] == 'f':
+                        names.add(el[1])
+    return names
+
+
 def mentions_field(vals, variant, field):
     def pred(x):
         if x[0] == 'field' and x[2] == field and strip(x[1])[0] == 'as' and strip(x[1])[2] == variant:
@@ -61,6 +108,8 @@ def display_mockerror(chk, F, rule, cfg):
     chk.floor(rule, 'MockError variants', len(adt['variants']), 14, config=cfg)
     by_variant = {}
     for p in paths:
+        if p.outcome[0] == 'return' and (is_call(strip(p.outcome[1]), r'from_residual$') or (strip(p.outcome[1])[0] == 'agg' and strip(p.outcome[1])[3] == 'Err')):
+            continue        # (the formatter refused an earlier piece: the rest of the message is not written - nothing to say about it)
         var = None
         for d in p.decisions:
             v = strip(d.value)
@@ -304,7 +353,7 @@ def display_call(chk, F, rule, cfg):
                 ok = mentions(w, lambda x: x[0] == 'as' and x[2] == 'Some' and mentions(x, lambda y: y[0] == 'call' and re.search(r'Iterator>?::next$', y[1])))
                 chk.ob(rule, 'a Debug-renderable argument is written as its rendering', ok, config=cfg, fn=fn, site='elem:some', what='Some element writes %s' % show(w)[:80], found=show(w)[:160])
             elif var == 'None':
-                ok = "'\"?\"'" in show(w) or '"?"' in show(w)
+                ok = "'\"?\"'" in show(w) or '"?"' in show(w) or mentions(w, lambda y: y[0] in ('c', 'ref', 'deref') and _const_str(y) == '?')
                 chk.ob(rule, 'an argument without Debug is written as `?`', ok, config=cfg, fn=fn, site='elem:none', what='None element writes %s' % show(w)[:80], found=show(w)[:160])
     cpd = F.method('debug::CallPatternDebug', 'fmt', 'core::fmt::Display')
     for p in symex.Interp(F).run(cpd):
@@ -312,10 +361,11 @@ def display_call(chk, F, rule, cfg):
         for d in p.decisions:
             if strip(d.value)[0] == 'discr':
                 var = decision_variant(F, d)
-        vals = written_values(p)
+        vals = written_values(p) + opened_displays(F, p)
         txt = ' '.join(show(v) for v in vals)
+        fns_ = field_names(vals)
         if var == 'Debug':
-            ok = all(k in txt for k in ('pat_debug', 'file', 'line')) and re.search(r'\.path\b', txt) is not None
+            ok = all(k in txt or k in fns_ for k in ('pat_debug', 'file', 'line')) and (re.search(r'\.path\b', txt) is not None or 'path' in fns_)
             chk.ob(rule, 'a pattern with matcher debug info is named by its source text and file:line', ok, config=cfg, fn=cpd, site='pattern:debug', what='CallPatternDebug(Debug) renders %s' % sorted(k for k in ('pat_debug', 'file', 'line', 'path') if k in txt))
         elif var == 'PatIndex':
             ok = 'PatIndex' in txt and 'path' in txt
